@@ -7,7 +7,7 @@
    |target| + |minChange| + sum of values, and (|MinAvg| + max value-age) * (len + 1), below 2^62).
    sort.Sort is a dependency: any function meeting [sort_spec] (a permutation of its input,
    sorted whenever Less is a strict weak order); it need not be stable. *)
-From BU Require Import Lib.Bytes CoinSet.CoinSet CoinSet.CoinSetProofs CoinSet.SelectorProofs.
+From BU Require Import Lib.Bytes CoinSet.CoinSet CoinSet.CoinSetProofs CoinSet.SelectorProofs CoinSet.MinPrioProofs.
 From Coq Require Import Permutation Sorted.
 Open Scope Z_scope.
 
@@ -72,6 +72,79 @@ Theorem C19_select_distinct : forall sel offered,
   sub_multiset sel offered -> NoDup (map cid offered) -> NoDup (map cid sel) /\ incl sel offered.
 Proof. exact sub_multiset_nodup. Qed.
 Print Assumptions C19_select_distinct.
+
+(* MinPriority (the repaired code): every successful return, whichever branch produced it, is a
+   valid selection (sub-multiset of the offered coins, 1..MaxInputs coins, target predicate, exact
+   cached totals) and meets the required average value-age per input -- in the multiplied form
+   MinAvg * count <= total value-age AND in the form the code itself tests, total / count >= MinAvg
+   with Go's truncating division (the two agree because value-ages are >= 0; with negative
+   value-ages only the second would hold in the extension branch).
+   Hypotheses: sort_spec; every offered coin has value-age >= 0; exact arithmetic. *)
+Theorem C19_minprio_valid : forall sort_by, sort_spec sort_by -> forall maxin mc minavg target coins br s,
+  Forall (fun c => 0 <= va wx c) coins ->
+  min_priority_sel wx sort_by maxin mc minavg target coins = (br, Ok s) ->
+  valid_selection maxin mc target coins s
+  /\ minavg * cs_num s <= sumva wx (cs_list s)
+  /\ minavg <= Z.quot (sumva wx (cs_list s)) (cs_num s).
+Proof. exact minprio_valid. Qed.
+Print Assumptions C19_minprio_valid.
+
+(* the recursion on the low-priority part terminates within the fuel min_priority_sel provides
+   (len + 1), and no return is a panic (no division by zero, no out-of-fuel) *)
+Theorem C19_minprio_fuel_no_panic : forall sort_by, sort_spec sort_by -> forall maxin mc minavg target coins,
+  no_panic (min_priority_sel wx sort_by maxin mc minavg target coins).
+Proof. exact minprio_no_panic. Qed.
+Print Assumptions C19_minprio_fuel_no_panic.
+
+(* The algorithm as it was before the three repairs (min_priority_old, kept verbatim in the model)
+   violates each clause: concrete witnesses of DESIGN section 7, rows 15a, 15b, 15c. *)
+Theorem C19_minprio_maxinputs_old_refuted :
+  exists maxin mc minavg target coins br s,
+    good_input coins /\ min_priority_old wx isort maxin mc minavg target coins = (br, Ok s) /\ cs_num s > maxin.
+Proof. exact minprio_maxinputs_old_refuted. Qed.
+Print Assumptions C19_minprio_maxinputs_old_refuted.
+
+Theorem C19_minprio_target_old_refuted :
+  exists maxin mc minavg target coins br s,
+    good_input coins /\ min_priority_old wx isort maxin mc minavg target coins = (br, Ok s)
+    /\ satisfies wx target mc (sumv (cs_list s)) = false.
+Proof. exact minprio_target_old_refuted. Qed.
+Print Assumptions C19_minprio_target_old_refuted.
+
+Theorem C19_minprio_average_old_refuted :
+  exists maxin mc minavg target coins br s,
+    good_input coins /\ min_priority_old wx isort maxin mc minavg target coins = (br, Ok s)
+    /\ minavg * cs_num s > sumva wx (cs_list s) /\ Z.quot (sumva wx (cs_list s)) (cs_num s) < minavg.
+Proof. exact minprio_average_old_refuted. Qed.
+Print Assumptions C19_minprio_average_old_refuted.
+
+(* each repair is needed on its own (= the three seeded reverts), and with all three applied the
+   flagged old-code model is the current model *)
+Theorem C19_minprio_each_repair_needed :
+  (exists maxin mc minavg target coins br s, good_input coins
+     /\ min_priority_fx wx isort (mkFixes false true true) (S (length coins)) maxin mc minavg target coins = (br, Ok s)
+     /\ cs_num s > maxin)
+  /\ (exists maxin mc minavg target coins br s, good_input coins
+     /\ min_priority_fx wx isort (mkFixes true false true) (S (length coins)) maxin mc minavg target coins = (br, Ok s)
+     /\ satisfies wx target mc (sumv (cs_list s)) = false)
+  /\ (exists maxin mc minavg target coins br s, good_input coins
+     /\ min_priority_fx wx isort (mkFixes true true false) (S (length coins)) maxin mc minavg target coins = (br, Ok s)
+     /\ minavg * cs_num s > sumva wx (cs_list s)).
+Proof. exact (conj minprio_revert_bound_refuted (conj minprio_revert_target_refuted minprio_revert_round_refuted)). Qed.
+Print Assumptions C19_minprio_each_repair_needed.
+
+Theorem C19_minprio_fx_all_is_current : forall sort_by fuel mx mc ma tg coins,
+  min_priority_fx wx sort_by (mkFixes true true true) fuel mx mc ma tg coins = min_priority wx sort_by fuel mx mc ma tg coins.
+Proof. exact min_priority_fx_all. Qed.
+Print Assumptions C19_minprio_fx_all_is_current.
+
+(* the hypotheses of C19_minprio_valid are met by a concrete non-trivial instance: the top-up
+   branch on the coins of row 15c returns value-ages 12, 15, 0 for a required average of 5 *)
+Example C19_minprio_example :
+  exists s, min_priority_sel wx isort 4 1 5 11 w15c = (BrTopUp BrExtend, Ok s)
+            /\ map cid (cs_list s) = [3; 2; 0]%N /\ Forall (fun c => 0 <= va wx c) w15c.
+Proof. eexists. split; [vm_compute; reflexivity|]. split; [reflexivity|]. repeat constructor; vm_compute; discriminate. Qed.
+Print Assumptions C19_minprio_example.
 
 (* the hypotheses are satisfiable: the insertion sort used by the run driver meets sort_spec *)
 Example C19_sort_spec_inhabited : sort_spec isort.
